@@ -539,6 +539,12 @@ class Env:
                     self.raise_conn_sub = bool(op[2])
                 else:
                     self.raise_msg_sub = bool(op[2])
+            elif k == "msgsub":
+                # the application's message subscriber comes and goes
+                if int(op[1]):
+                    self.sock.subscribe_on_message_received(self.msg_sub)
+                else:
+                    self.sock.unsubcribe_on_message_received(self.msg_sub)
             elif k == "subslow":
                 self.conn_sub_slow = int(op[1])
             elif k == "subsend":
